@@ -191,7 +191,7 @@ class Needles(object):
         for n, name, enc in self.cs:
             if n in tok:
                 hits.add((name, enc))
-        if 40 <= len(tok) <= 160 and _B58RUN.match(tok):
+        if 43 <= len(tok) <= 400 and _B58RUN.match(tok):
             p = codec.b58decode(tok)
             if p:
                 for b, name in self.raw32:
@@ -857,11 +857,15 @@ def hd_cfgs(seed, quick):
         {'src': 'seed', 'net': 'testnet', 'wt': 'p2sh-segwit', 'ms': False},
         {'src': 'seed', 'net': 'bitcoin', 'wt': 'segwit', 'ms': True},
         {'src': 'xprv_depth3', 'net': 'litecoin', 'wt': 'legacy', 'ms': False},
-        {'src': 'plainkey', 'net': 'bitcoin', 'wt': 'segwit', 'ms': False},
+        # uncompressed private HD keys (non-standard but accepted): the public serialisations of such a key are
+        # built on a different branch (65-byte public key) than those of every default key
+        {'src': 'key_uncompressed', 'net': 'bitcoin', 'wt': 'legacy', 'ms': False},
+        {'src': 'seed_uncompressed', 'net': 'testnet', 'wt': 'legacy', 'ms': False},
     ]
     if not quick:
         cfgs += [
-            {'src': 'key_uncompressed', 'net': 'bitcoin', 'wt': 'legacy', 'ms': False},
+            {'src': 'plainkey', 'net': 'bitcoin', 'wt': 'segwit', 'ms': False},
+            {'src': 'hex_uncompressed', 'net': 'litecoin', 'wt': 'legacy', 'ms': False},
             {'src': 'seed', 'net': 'bitcoinlib_test', 'wt': 'segwit', 'ms': False},
             {'src': 'xprv', 'net': 'dogecoin', 'wt': 'legacy', 'ms': False},
             {'src': 'xprv_depth3', 'net': 'testnet', 'wt': 'segwit', 'ms': True},
@@ -872,10 +876,13 @@ def hd_cfgs(seed, quick):
     return cfgs
 
 
+UNC_SRC = ('key_uncompressed', 'hex_uncompressed', 'seed_uncompressed')
+
+
 def hd_ref(cfg):
     """Reference XKey of the configuration (what the built HDKey must be)."""
     src = cfg['src']
-    if src in ('plainkey', 'key_uncompressed'):
+    if src in ('plainkey', 'key_uncompressed', 'hex_uncompressed'):
         k = filler(int(cfg['seed'][:8], 16), 'plain')
         return bip32.XKey(k, secp.pub(k), b'\0' * 32)
     m = bip32.master(bytes.fromhex(cfg['seed']))
@@ -898,12 +905,19 @@ def hd_build(cfg):
             o = HDKey(x.ser(ver, True), network=net, witness_type=wt, multisig=ms)
     elif src == 'plainkey':
         o = HDKey('%064x' % x.secret, network=net, witness_type=wt, multisig=ms)
-    elif src == 'key_uncompressed':
-        o = HDKey(Key('%064x' % x.secret, network=net, compressed=False), network=net, witness_type=wt)
+    elif src == 'key_uncompressed':     # HDKey built from a Key imported as uncompressed WIF
+        wif = codec.b58check_encode(nets.wif_ver(net) + x.secret.to_bytes(32, 'big'))
+        o = HDKey(Key(wif, network=net), network=net, witness_type=wt)
+    elif src == 'hex_uncompressed':
+        o = HDKey('%064x' % x.secret, network=net, witness_type=wt, compressed=False)
+    elif src == 'seed_uncompressed':
+        o = HDKey.from_seed(cfg['seed'], network=net, witness_type=wt, compressed=False)
     else:
         raise HarnessError('unknown hd source')
     if o.secret != x.secret or not o.is_private or o.chain != x.chain or o.depth != x.depth:
         raise HarnessError('HDKey import (%s) did not produce the intended private key' % src)
+    if bool(o.compressed) == (src in UNC_SRC):
+        raise HarnessError('HDKey import (%s) has compressed=%s' % (src, o.compressed))
     return o
 
 
@@ -996,7 +1010,7 @@ def _no_private(k):
 
 def _hd_secrets(cfg):
     other = 'testnet' if cfg['net'] != 'testnet' else 'bitcoin'
-    unc = cfg['src'] == 'key_uncompressed'
+    unc = cfg['src'] in UNC_SRC
     return hd_family('hd', hd_ref(cfg), cfg['net'], unc) + hd_family('hd', hd_ref(cfg), other, unc)
 
 
@@ -1038,7 +1052,8 @@ TO_ADDR_HASH = bytes(range(1, 21))
 
 
 def wallet_kinds(quick):
-    kinds = ['hd_segwit_test', 'hd_legacy_btc', 'single_btc', 'multisig_test', 'hd_imported_test']
+    kinds = ['hd_segwit_test', 'hd_legacy_btc', 'single_btc', 'multisig_test', 'hd_imported_test',
+             'single_unc_btc']
     if not quick:
         kinds += ['hd_p2sh_ltc', 'hd_accounts_btc']
     return kinds
@@ -1047,14 +1062,18 @@ def wallet_kinds(quick):
 def wallet_material(seed, kind):
     """Key material of a template, all from the reference: dict with xprv strings / WIFs to hand to the library."""
     net = {'hd_segwit_test': 'bitcoinlib_test', 'hd_legacy_btc': 'bitcoin', 'single_btc': 'bitcoin',
+           'single_unc_btc': 'bitcoin',
            'multisig_test': 'bitcoinlib_test', 'hd_imported_test': 'bitcoinlib_test', 'hd_p2sh_ltc': 'litecoin',
            'hd_accounts_btc': 'bitcoin'}[kind]
-    wt = {'hd_legacy_btc': 'legacy', 'single_btc': 'legacy', 'hd_p2sh_ltc': 'p2sh-segwit'}.get(kind, 'segwit')
+    wt = {'hd_legacy_btc': 'legacy', 'single_btc': 'legacy', 'single_unc_btc': 'legacy',
+          'hd_p2sh_ltc': 'p2sh-segwit'}.get(kind, 'segwit')
     m = {'kind': kind, 'net': net, 'wt': wt, 'seeds': [filler_seed(seed, 'w|' + kind).hex()]}
     if kind == 'multisig_test':
         m['seeds'].append(filler_seed(seed, 'w2|' + kind).hex())
     if kind == 'single_btc':
         m['single'] = '%064x' % filler(seed, 'wsingle')
+    if kind == 'single_unc_btc':
+        m['single'] = '%064x' % filler(seed, 'wsingleunc')
     if kind == 'hd_imported_test':
         m['imported'] = '%064x' % filler(seed, 'wimp')
     return m
@@ -1090,6 +1109,13 @@ def _wallet_create(mat, db, name='w'):
     if kind == 'single_btc':
         wif = codec.b58check_encode(nets.wif_ver(net) + bytes.fromhex(mat['single']) + b'\x01')
         w = Wallet.create(name, keys=wif, network=net, witness_type=wt, scheme='single', db_uri=db)
+    elif kind == 'single_unc_btc':      # single-key wallet on an HDKey built from an uncompressed WIF
+        from bitcoinlib.keys import Key
+        wif = codec.b58check_encode(nets.wif_ver(net) + bytes.fromhex(mat['single']))
+        hk = HDKey(Key(wif, network=net), network=net, witness_type=wt)
+        if hk.compressed:
+            raise HarnessError('uncompressed template key is compressed')
+        w = Wallet.create(name, keys=hk, network=net, witness_type=wt, scheme='single', db_uri=db)
     elif kind == 'multisig_test':
         k1 = HDKey(_xprv(mat['seeds'][0], net, wt, True), network=net)
         k2 = HDKey(_xprv(mat['seeds'][1], net, wt, True), network=net).public_master_multisig()
@@ -1099,7 +1125,7 @@ def _wallet_create(mat, db, name='w'):
     if kind == 'hd_accounts_btc':
         w.new_account()
     w.get_key()
-    if kind != 'single_btc':
+    if kind not in ('single_btc', 'single_unc_btc'):
         w.new_key()
         w.get_key(change=1)
     if kind == 'hd_imported_test':
@@ -1339,7 +1365,8 @@ def w_views():
         ('Wallet.wif', lambda b: (b.w.wif(), b.w.wif(is_private=False))),
         # the returned public key object(s), followed by the default views of that very object
         ('Wallet.public_master', lambda b: (lambda pm: (pm, [
-            (k.as_dict(), repr(k), k.wif, k.key(), k.key().as_dict() if not isinstance(k.key(), list) else None)
+            (_try(k.as_dict), repr(k), k.wif, _try(k.key),
+             _try(lambda: k.key().as_dict() if not isinstance(k.key(), list) else None))
             for k in _aslist(pm)]))(b.w.public_master())),
         ('Wallet.as_dict', lambda b: b.w.as_dict()),
         ('Wallet.as_json', lambda b: b.w.as_json()),
@@ -1465,7 +1492,8 @@ def wk_views():
         ('WalletKey.public', pub),
         ('WalletKey.public>as_dict', lambda b: pub(b).as_dict()),
         ('WalletKey.public>repr', lambda b: (repr(pub(b)), pub(b).wif)),
-        ('WalletKey.public>key', lambda b: (lambda k: (k, k.as_dict(), repr(k), printed(k.info)))(pub(b).key())),
+        ('WalletKey.public>key', lambda b: (lambda k: (k, _try(k.as_dict), repr(k), _try(lambda: printed(k.info))))(
+            pub(b).key())),
         ('WalletKey.public>as_dict(include_private)', lambda b: _must_refuse_or(
             lambda: pub(b).as_dict(include_private=True))),
         ('WalletKey.public>private_accessors', lambda b: (lambda p: (p.key_private, p.keys_private, p.wif,
@@ -1689,7 +1717,7 @@ def sub_dbrest(case):
     if (mode == 'key') != info['enc_key_seen'] or (mode == 'password') != info['enc_pw_seen']:
         raise HarnessError('encryption mode %s not seen by the child: %s' % (mode, info))
     # the private export read back through the library must be the real key (the data is there, not dropped)
-    control(acc, nd, 'wif_read_back', info['wif_back'], ['xprv'] if mat['kind'] != 'single_btc' else ['xprv'])
+    control(acc, nd, 'wif_read_back', info['wif_back'], ['xprv'])
     files = []
     for root, _dirs, fs in os.walk(ddir):
         for f in fs:
@@ -1806,6 +1834,18 @@ def selftest():
     # any prefix / any metadata: re-encode the same key under an unknown version and child number
     alt = bip32.XKey(m.secret, None, m.chain, 3, b'abcd', 77).ser(bytes.fromhex('0a0b0c0d'), True)
     assert ('v1', 'xprv') in nd.text(alt)
+    # an 'extended public key' that carries the raw private key instead of the 33-byte public key: public
+    # version bytes, 77+4 bytes instead of 78+4 (seeded change c16), found only by decoding the token
+    raw = m.secret.to_bytes(32, 'big')
+    body = bip32.XPUB + bytes([0]) + b'\0' * 4 + b'\0' * 4 + m.chain + raw
+    tok = codec.b58encode(body + codec.dsha256(body)[:4])
+    assert len(body) == 77 and ('v1', 'base58-other') in nd.text('wif_public=' + tok + ',')
+    assert nd.text(json.dumps({'extended_wif_public': tok})) and not nd.text(xpub)
+    # key at an unaligned offset, arbitrary length, no valid checksum, leading zero bytes
+    for pre, post in ((b'\x07', b''), (b'\0\0abc', b'xyz' * 9), (b'q' * 13, b'\x01\x02'), (b'', b'\xff' * 40)):
+        t = codec.b58encode(pre + raw + post)
+        assert any(n == 'v1' for n, _e in nd.text('<' + t + '>')), (pre, post)
+        assert not nd.text(codec.b58encode(pre + bytes(32) + post))
     assert walk({'a': [1, {'b': (m.secret,)}]}, nd) == {('a[].b[]', 'v1', 'int')}
 
     class O(object):
@@ -1873,7 +1913,8 @@ def run(ctx):
         bounds['hdkey'] = {'configs': len(cfgs), 'depth': depth, 'events': HD_EVENTS + ([] if q else HD_EVENTS_T),
                            'views': [v for v, _ in hd_views()], 'levels': lv}
     lap('hdkey')
-    wk_which = {'hd_segwit_test': ['main', 'address'], 'single_btc': ['main'], 'hd_imported_test': ['imported']}
+    wk_which = {'hd_segwit_test': ['main', 'address'], 'single_btc': ['main'], 'hd_imported_test': ['imported'],
+                'single_unc_btc': ['main']}
     if not q:
         wk_which.update({'hd_segwit_test': ['main', 'account', 'address'], 'hd_legacy_btc': ['address'],
                          'hd_p2sh_ltc': ['account'], 'hd_accounts_btc': ['main']})
@@ -1894,7 +1935,7 @@ def run(ctx):
         if want('wallet'):
             if q:
                 cfgs = [{'mat': mat, 'tpl': tpl, 'full': False, 'quick': True} for mat, tpl in zip(mats, tpls)
-                        if mat['kind'] in ('hd_segwit_test', 'multisig_test', 'single_btc')]
+                        if mat['kind'] in ('hd_segwit_test', 'multisig_test', 'single_btc', 'single_unc_btc')]
                 lv = bfs_multi(ctx, 'wallet', cfgs, 2)
                 bounds['wallet'] = [{'configs': [c['mat']['kind'] for c in cfgs], 'depth': 2,
                                      'events': W_EVENTS_Q + W_EVENTS_NET, 'levels': lv}]
